@@ -36,3 +36,39 @@ Definition run_pysem (c : nat * list N * option Z * option Z * list N) : V :=
     | _ => vopt vnat (py_find s l (match a with Some z => z | None => 0%Z end))
     end
   end.
+
+(** -- the file-like wrappers (job wrappers) ---------------------------------------------------------------- *)
+From PV Require Import Expect.Wrappers.
+Definition crlf_rx : rx := Lit [13; 10]%N.
+Definition dot_n (n : nat) : rx := Rep n Any.
+Definition enc_wres (r : wres) : V :=
+  match r with
+  | WText t => VL [VI 0; vtext t]
+  | WRaise (AtTimeout _ _) => VL [VI 1; VI 2]
+  | WRaise (Errored _) => VL [VI 1; VI 3]
+  | WRaise _ => VL [VI 1; VI 1]
+  end.
+Definition enc_lend (e : lend) : V :=
+  match e with LEnd => VI 0 | LRaised (AtTimeout _ _) => VI 2 | LRaised (Errored _) => VI 3 | LRaised _ => VI 1 | LFuel => VI 9 end.
+Fixpoint run_wops (Wd : option nat) (ops : list wop) (s : st) (evs : list ev) : list V :=
+  match ops with
+  | [] => []
+  | o :: r =>
+      match o with
+      | WReadlines =>
+          match readlines rx rx_search crlf_rx Wd 200 s evs [] with
+          | (ls, fin, s', e') => VL [VL [VI 2; vlist vtext ls; enc_lend fin]; vtext (pend s'); vtext (buf s'); vnat (length e')] :: run_wops Wd r s' e'
+          end
+      | _ =>
+          match (match o with
+                 | WReadline => readline rx rx_search crlf_rx Wd s evs
+                 | WReadAll => read_all rx rx_search Wd s evs
+                 | WReadN n => read_n rx rx_search dot_n Wd n s evs
+                 | WReadlines => (WText [], s, evs)
+                 end) with
+          | (x, s', e') => VL [enc_wres x; vtext (pend s'); vtext (buf s'); vnat (length e')] :: run_wops Wd r s' e'
+          end
+      end
+  end.
+Definition run_wrappers (c : option nat * list wop * list ev * st) : V :=
+  match c with (Wd, ops, evs, s0) => VL (run_wops Wd ops s0 evs) end.
